@@ -8,7 +8,7 @@ use std::path::PathBuf;
 
 fn main() {
     let manifest = std::env::var("CARGO_MANIFEST_DIR").unwrap();
-    let src = PathBuf::from(&manifest).join("../../repo/src/df/dfs.rs");
+    let src = PathBuf::from(&manifest).join("../../../repo/src/df/dfs.rs");
     println!("cargo:rerun-if-changed={}", src.display());
     println!("cargo:rerun-if-changed=build.rs");
     let text = std::fs::read_to_string(&src).unwrap_or_else(|e| panic!("cannot read {}: {}", src.display(), e));
